@@ -1,7 +1,7 @@
 (* C12 -- "stops exactly at the final time", RungeKutta2::exe / RungeKutta4::exe with the last step clamped
    (model fixedc_exe of C12Model.v; selected by check.py when that model is the one that corresponds to /repo). *)
 From Coq Require Import Reals List.
-From C12 Require Import C12Spec C12Model C12Proofs.
+From C12 Require Import C12Model C12LoopProofs.
 Local Open Scope R_scope.
 
 Theorem C12_fixed_step_stops_at_final_time : forall fuel h b e r,
